@@ -280,7 +280,7 @@ def strip_nonnumeric_nd(t, v):
                 out.append([a2, strip_nonnumeric_nd(t[2], b)])
         return ['dict', out]
     if k == 'struct':
-        return ['st', [strip_nonnumeric_nd(ft, x) for (_, ft), x in zip(t[1], v[1])]]
+        return ['st', [strip_nonnumeric_nd(ft, x) for (_, ft), x in zip(t[1], v[1])]] + v[2:]
     if k == 'tuple':
         return ['tup', [strip_nonnumeric_nd(et, x) for et, x in zip(t[1], v[1])]]
     if k == 'ndarray':
@@ -302,7 +302,7 @@ def flip_order(t, v):
     if k == 'dict':
         return ['dict', [[flip_order(t[1], a), flip_order(t[2], b)] for a, b in v[1]]]
     if k == 'struct':
-        return ['st', [flip_order(ft, x) for (_, ft), x in zip(t[1], v[1])]]
+        return ['st', [flip_order(ft, x) for (_, ft), x in zip(t[1], v[1])]] + v[2:]
     if k == 'tuple':
         return ['tup', [flip_order(et, x) for et, x in zip(t[1], v[1])]]
     if k == 'ndarray':
@@ -394,7 +394,7 @@ class C33(Prop):
                 out.append([self.ordered(t[1], a, ke), self.ordered(t[2], b, ve)])
             return ['dict', out]
         if k == 'struct':
-            return ['st', [self.ordered(ft, a, x[n]) for (n, ft), a in zip(t[1], v[1])]]
+            return ['st', [self.ordered(ft, a, x[n]) for (n, ft), a in zip(t[1], v[1])]] + v[2:]
         if k == 'tuple':
             return ['tup', [self.ordered(et, a, b) for et, a, b in zip(t[1], v[1], x)]]
         return v
@@ -406,7 +406,11 @@ class C33(Prop):
             if len(self._memo) > 400000:      # impl() of every case runs before model_lines(): never evict within a run
                 self._memo.clear()
             t, v = c['type'], c['value']
-            x = self.H.to_py(t, v)
+            try:
+                x = self.H.to_py(t, v)
+            except Exception as e:      # the value cannot even be built (e.g. hl.Struct refusing a field name)
+                self._memo[key] = (e, v, None)
+                return self._memo[key]
             ov = self.ordered(t, v, x)
             try:
                 b = self.H.build_type(t)._to_encoding(x)
@@ -418,6 +422,8 @@ class C33(Prop):
     def model_lines(self, c):
         t = c['type']
         x, v, real = self.real(c)
+        if isinstance(x, Exception):
+            return []          # nothing to compare: impl() re-raises, the oracle reports it
         s = ' '.join(hv.ty_tokens(t)) + ' | ' + ' '.join(hv.val_tokens(t, v))
         # (the model is never asked to read bytes it did not write: on foreign bytes a garbage dimension of an array of
         # zero-width elements would make it — like the real decoder — loop for 2^60 steps; when the `enc` lines agree the bytes
@@ -427,6 +433,8 @@ class C33(Prop):
     def impl(self, c):
         t = c['type']
         x, v, b = self.real(c)
+        if isinstance(x, Exception):
+            raise x
         ht = self.H.build_type(t)
         if b is None:
             return ['err', 'err']
@@ -440,7 +448,10 @@ class C33(Prop):
 
     def failure(self, t, v):
         ht = self.H.build_type(t)
-        x = self.H.to_py(t, v)
+        try:
+            x = self.H.to_py(t, v)
+        except Exception as e:
+            return f'the value cannot be built: {type(e).__name__}: {str(e)[:100]}'
         want = hv.canon_case(t, v)
         try:
             b = ht._to_encoding(x)
